@@ -105,6 +105,19 @@ func (allocEngine) Gen(rng *rand.Rand, tier string, i int) any {
 		c.Ops = 400
 	}
 	c.PoolLen, c.Page = sh[0], sh[1]
+	if rng.Intn(25) == 0 {
+		// pools that contain IPv4-mapped space (::ffff:0:0/96) without being written in that form: some of their
+		// block bases are addresses net.IP.To4 answers for, the pool base is not
+		m := [][3]string{{"0000000000000000 0000fffe00000000", "95", "96"}, {"0000000000000000 0000ffc000000000", "90", "100"}, {"0000000000000000 0000ff0000000000", "88", "96"},
+			{"0000000000000000 0000fffe00000000", "95", "128"}, {"0000000000000000 0000fff000000000", "92", "104"}}[rng.Intn(5)]
+		c.Start = engarith.IPOf(func() *big.Int { v, _ := new(big.Int).SetString(strings.ReplaceAll(m[0], " ", ""), 16); return v }()).String()
+		fmt.Sscan(m[1], &c.PoolLen)
+		fmt.Sscan(m[2], &c.Page)
+		if c.Page-c.PoolLen > 12 {
+			c.Page = c.PoolLen + 12
+		}
+		return c
+	}
 	base := engarith.Pattern128(rng)
 	switch rng.Intn(5) {
 	case 0:
